@@ -308,8 +308,19 @@ func sigString(s string) []byte {
 func u32(v uint32) []byte { return binary.LittleEndian.AppendUint32(nil, v) }
 
 // amplifier builds inputs designed to reach deep states.
+// ampMax bounds amplifier inputs. They are allowed to be larger than the other
+// quick-tier inputs: an amplification of a few KiB per input byte (e.g. a
+// per-level pre-allocation of 4096 entries) only exceeds the constant part of
+// the allocation budget once the input has a few thousand nesting levels.
+func ampMax() int {
+	if vt.Thorough() {
+		return 64 << 10
+	}
+	return 32 << 10
+}
+
 func amplifier(t *rapid.T, c *Case) []byte {
-	max := maxInput()
+	max := ampMax()
 	excludeParens := vt.Known("C07:sigparse:paren-nesting")
 	parenDepthMax := 400
 	if excludeParens {
@@ -319,7 +330,7 @@ func amplifier(t *rapid.T, c *Case) []byte {
 	kind := rapid.SampledFrom([]string{"list-tower", "zero-width-count", "paren-tower", "unclosed", "sig-in-value", "deep-list-sig", "struct-tower"}).Draw(t, "amp")
 	c.Kind = "amplifier:" + kind
 	count := rapid.SampledFrom(hostile).Draw(t, "count")
-	depth := rapid.IntRange(1, max/12).Draw(t, "depth")
+	depth := rapid.OneOf(rapid.IntRange(1, max/12), rapid.IntRange(max/24, max/12)).Draw(t, "depth")
 	pdepth := rapid.IntRange(1, parenDepthMax).Draw(t, "pdepth")
 	var sig string
 	var body []byte
@@ -493,8 +504,12 @@ func genCase(t *rapid.T) Case {
 			data = []byte(mutateText(t, rapid.SampledFrom(idlCorpus).Draw(t, "corpus"), idlAlphabet))
 		}
 	}
-	if len(data) > maxInput() {
-		data = data[:maxInput()]
+	limit := maxInput()
+	if strings.HasPrefix(c.Kind, "amplifier") {
+		limit = ampMax()
+	}
+	if len(data) > limit {
+		data = data[:limit]
 	}
 	c.Hex = hex.EncodeToString(data)
 	return c
